@@ -25,7 +25,7 @@ ASSUMPTIONS = [
 COMPONENTS = {'real': ['yldprolog.engine query/load_script_from_string/load_script_from_file/register_function/chain_functions/assert_fact/clear', 'compiler output for the snippets'],
               'stub': ['file system seen by load_script_from_file (in-memory fake open, injects I/O errors)', 'native predicates (tagged answers)'],
               'oracle': ['definition-table model: per name/arity facts first, then the chain of definitions registered for exactly that arity, variadic only if none, each definition with its own cut']}
-REQUIRED_PROBES = ('op_reg_partial', 'op_reg_bound-method', 'op_reg_callable-object', 'op_regfail', 'suspended_call_resumed_after_change', 'op_load_overwrite', 'op_load_append', 'op_loadfail_syntax', 'op_loadfail_raise', 'op_loadfail_io', 'op_reg_inferred', 'op_reg_explicit',
+REQUIRED_PROBES = ('op_reg_decorated', 'op_reg_star-rest', 'assert_with_atom_object_not_current', 'op_reg_partial', 'op_reg_bound-method', 'op_reg_callable-object', 'op_regfail', 'suspended_call_resumed_after_change', 'op_load_overwrite', 'op_load_append', 'op_loadfail_syntax', 'op_loadfail_raise', 'op_loadfail_io', 'op_reg_inferred', 'op_reg_explicit',
                    'op_reg_variadic', 'op_assert', 'op_clear', 'chain_of_2plus_definitions', 'variadic_used', 'variadic_shadowed_by_exact', 'reserved_name_registered',
                    'load_via_file')
 
@@ -142,10 +142,10 @@ def gen(seed, tier):
             ops.append(['loadfail', rng.randrange(len(SNIPPETS)), kind, rng.random() < 0.5, rng.randrange(0, 4)])
         elif k < 0.72:
             name, ar = rng.choice(REG_TARGETS)
-            ops.append(['reg', name, ar, rng.choice(['inferred', 'explicit', 'variadic']), rng.random() < 0.5, rng.choice(['function', 'function', 'partial', 'bound-method', 'callable-object'])])
+            ops.append(['reg', name, ar, rng.choice(['inferred', 'explicit', 'variadic']), rng.random() < 0.5, rng.choice(['function', 'function', 'partial', 'bound-method', 'callable-object', 'decorated', 'star-rest'])])
         elif k < 0.86:
             name, ar = rng.choice(ASSERT_TARGETS)
-            ops.append(['assert', name, ar, rng.random() < 0.3])
+            ops.append(['assert', name, ar, rng.random() < 0.3, rng.choice(('current', 'current', 'kept', 'foreign'))])
         elif k < 0.9:
             name, ar = rng.choice([('p', 1), ('p', 1), ('r', 1), ('sub', 1), ('main', 1), ('p', 2), ('q', 2), ('is_a', 1)])
             ops.append(['qstart', name, ar])
@@ -167,7 +167,7 @@ def show_op(op):
     if op[0] == 'reg':
         return 'register_function %s/%d %s yields %s%s' % (op[1], op[2], op[3], op[4], '' if len(op) < 6 or op[5] == 'function' else ' as a ' + op[5])
     if op[0] == 'assert':
-        return 'assert_fact %s/%d %s' % (op[1], op[2], 'front' if op[3] else 'back')
+        return 'assert_fact %s/%d %s%s' % (op[1], op[2], 'front' if op[3] else 'back', '' if len(op) < 5 or op[4] == 'current' else ' (name atom: %s)' % op[4])
     if op[0] == 'qstart':
         return 'call %s/%d and take its first answer (keep the generator suspended)' % (op[1], op[2])
     if op[0] == 'qstep':
@@ -287,6 +287,8 @@ def execute(plan):
                 yield yv
         return impl
 
+    kept = {}
+    other = YP()
     suspended = []       # (generator, variables, answers expected when the call was made, next index)
     for op in plan['ops']:
         kind = op[0]
@@ -396,6 +398,13 @@ def execute(plan):
                             f = functools.partial(f)
                         elif ckind == 'bound-method':
                             f = types_method(f)
+                        elif ckind == 'decorated':
+                            # an ordinary functools.wraps decorator: the signature is that of the wrapped function
+                            f = (lambda g: functools.wraps(g)(lambda *a, **kw: g(*a, **kw)))(f)
+                        elif ckind == 'star-rest':
+                            # the last parameter collects the rest: (a, *rest) has two parameters
+                            f = {0: f, 1: (lambda i: (lambda *rest: i(*rest)))(impl), 2: (lambda i: (lambda a, *rest: i(a, *rest)))(impl),
+                                 3: (lambda i: (lambda a, b, *rest: i(a, b, *rest)))(impl)}[ar]
                         else:
                             f = callable_object(f, ar)
                     yp.register_function(name, f, arity=None if style == 'inferred' else ar)
@@ -409,11 +418,22 @@ def execute(plan):
                     raised = True
                 log.ev('regfail', op[1], op[2], raised)
             elif kind == 'assert':
-                _, name, ar, front = op
+                _, name, ar, front = op[:4]
+                src = op[4] if len(op) > 4 else 'current'
                 counter[0] += 1
                 row = ['f%d' % counter[0]] * ar
                 log.count('op_assert')
-                yp.assert_fact(yp.atom(name), [yp.atom(x) for x in row], not front)
+                # atoms are equal by name: the caller may use an atom object it obtained earlier (also before a clear())
+                # or one made by another engine instance
+                if src == 'kept':
+                    name_atom = kept.setdefault(name, yp.atom(name))
+                elif src == 'foreign':
+                    name_atom = other.atom(name)
+                else:
+                    name_atom = yp.atom(name)
+                if name_atom is not yp.atom(name):
+                    log.count('assert_with_atom_object_not_current')
+                yp.assert_fact(name_atom, [yp.atom(x) for x in row], not front)
                 lst = m.facts.setdefault((name, ar), [])
                 lst.insert(0, row) if front else lst.append(row)
             elif kind == 'clear':
